@@ -579,7 +579,12 @@ func checkC07(p *Prog, r *Report) {
 	initK := p.Method(Rel("app/keepers"), "AppKeepersWithKey", "InitKeyAndKeepers")
 	okK := false
 	if initK != nil {
-		for _, cs := range findCalls(initK, "x/burn/keeper.NewKeeper") {
+		// InitKeyAndKeepers itself or a set-up helper of the same package that it calls
+		var sites []CallSite
+		for _, f := range p.ReachFrom([]*ssa.Function{initK}, func(f *ssa.Function) bool { return InPkgs(f, "app/keepers") && !p.IsGenerated(f) }).Order {
+			sites = append(sites, findCalls(f, "x/burn/keeper.NewKeeper")...)
+		}
+		for _, cs := range sites {
 			// the bank-capable argument of the constructor (whatever its position) is the application's bank keeper
 			for _, a := range cs.Instr.Common().Args {
 				if f, ok := rawFieldLoad(a); ok && f == "BankKeeper" {
